@@ -127,7 +127,7 @@ class Verifier(object):
         self.reports = {}
 
     # ------------------------------------------------------------------ VC generation
-    def gen_function(self, qualname):
+    def gen_function(self, qualname, case_range=None):
         rep = FunctionReport(qualname)
         self.reports[qualname] = rep
         c = self.registry.get(qualname)
@@ -140,6 +140,8 @@ class Verifier(object):
             rep.status, rep.reason = "missing", str(e)
             return rep
         cases = c.cases_ or [{}]
+        if case_range is not None:
+            cases = cases[case_range[0]:case_range[1]]
         try:
             for ci, case in enumerate(cases):
                 m = Machine(self.repo, self.registry, self.externals)
